@@ -16,6 +16,7 @@ type ConcatCase struct {
 }
 
 func (c *ConcatCase) Kind() string { return "concat" }
+func (c *ConcatCase) Spread() bool { return true }
 
 func (c *ConcatCase) src(parts ...[]PStmt) []byte {
 	var b strings.Builder
